@@ -90,7 +90,7 @@ def _arith(op, a, b):
 class Intervals(object):
     """Result for one function: IN states by node id; eval(x, nid)."""
 
-    def __init__(self, model, fname, param_iv=None, preconds=None, field_inv=None):
+    def __init__(self, model, fname, param_iv=None, preconds=None, field_inv=None, call_iv=None):
         self.m = model
         self.fname = fname
         self.fn = model.funcs[fname]
@@ -99,6 +99,7 @@ class Intervals(object):
         self.kfield = {}
         self.preconds = preconds or {}      # variable name -> (lo, hi)  (configuration preconditions)
         self.field_inv = field_inv or {}    # (record, field) -> (lo, hi)
+        self.call_iv = call_iv              # optional: (call node, [argument intervals]) -> interval of the result
         init = {}
         for i, prm in enumerate(self.fn.params):
             iv = None
@@ -232,7 +233,12 @@ class Intervals(object):
                 return type_range(x.cty)
             return hull(a, b)
         if k == 'call':
-            return type_range(x.cty)
+            tr = type_range(x.cty)
+            if self.call_iv is not None and tr is not None:
+                r = self.call_iv(x, [self.ev(a, s, nid) for a in x.kids[1:]])
+                if r is not None:
+                    return (max(r[0], tr[0]), min(r[1], tr[1]))
+            return tr
         return type_range(x.cty)
 
     # ---------------------------------------------------------------- transfer
